@@ -258,7 +258,7 @@ def run(ctx):
     h = codec.H()
     rng = random.Random(ctx.seed + 3)
     thorough = ctx.tier == 'thorough' or ctx.escalate
-    n = 5000 if thorough else 600
+    n = 12000 if thorough else 600
     ctx.coverage['rule'] = ('documents written by an independent grammar-directed writer: every value kind x an independently chosen legal spelling per '
                             'token (blanks around commas and colons, empty cells, _ in digits, exponent forms, INF/-INF/NaN, raw / short / \\uXXXX escapes '
                             'in upper and lower case, CRLF, trailing commas and blanks in lists and dicts, T/t and Z/z, with and without zone name, blanks '
@@ -320,7 +320,7 @@ def run(ctx):
                 return
     # dense sweep of fractional seconds in times and date-times (every digit count 1..6)
     scal = []
-    for _ in range(4000 if thorough else 500):
+    for _ in range(30000 if thorough else 500):
         nd = rng.choice([1, 2, 3, 4, 5, 6, 6, 6])
         f = ''.join(rng.choice('0123456789') for _ in range(nd))
         hh, mm, ss = rng.randint(0, 23), rng.randint(0, 59), rng.randint(0, 59)
